@@ -20,7 +20,7 @@ from ..strictjson import typed_eq
 PID = 'C10'
 LEVEL = 'exploration'
 EXHAUSTIVE_OVERALL = False
-RULE = ('one case = one batch shape (2..4 elements, each with one of 12 profiles: call / notification / plain non-coroutine '
+RULE = ('one case = one batch shape (2..4 elements, each with one of 13 profiles: call / notification / plain non-coroutine '
         'method x succeeds / raises protocol error / raises arbitrary exception x 0..2 suspension points in method, middleware '
         '(before / after the inner handler) or error handler) x concurrent_batch on / off; for each shape ALL schedules '
         '(sequences of "which parked coroutine resumes next") are enumerated by stateless DFS re-execution of the real '
@@ -43,13 +43,14 @@ ANCHORS = [
 FLOORS = {'*': {'schedules': 12000, 'shapes': 1000, 'shapes-with>=2-completion-orders': 80, 'last-element-finishes-first': 50,
                 'max-in-flight>=2:concurrent': 200, 'sequential-mode-shapes': 60, 'points:method': 500, 'points:middleware': 500,
                 'points:error-handler': 200, 'profile:notification': 100, 'profile:plain-method': 100, 'profile:rpc-error': 100,
-                'profile:exception': 100, 'profile:plain-method-raising-TypeError': 50, 'elements:4': 2, 'plain-callable-middleware': 100}}
+                'profile:exception': 100, 'profile:plain-method-raising-TypeError': 50, 'profile:view-method': 50, 'elements:4': 2, 'plain-callable-middleware': 100}}
 
 # (kind, outcome, points)
 PROFILES = [
     ('call', 'ok', []), ('call', 'ok', ['m0']), ('call', 'ok', ['m0', 'm1']), ('call', 'ok', ['mw-pre', 'mw-post']),
     ('call', 'rpc', ['m0', 'eh']), ('call', 'exc', ['eh']), ('notify', 'ok', ['m0']), ('notify', 'exc', ['mw-pre', 'eh']),
     ('plain', 'ok', ['mw-post']), ('call', 'rpc', ['m0']), ('plain', 'ok', []), ('plain', 'texc', ['eh']),
+    ('view', 'ok', ['m0']),
 ]
 
 CUR = {'sched': None, 'exec': [], 'points': {}}
@@ -118,8 +119,23 @@ def build(shape, concurrent, plain_mw=False):
         # (a TypeError from inside the body is an ordinary failure of the method, not of the call)
         raise (TypeError if (tok % 2 or what == 'texc') else ValueError)(f'Zq7_marker_{tok}')
 
+    class View(pjrpc.server.ViewMixin):
+        """a class-based view (registered without a context) that keeps request state on `self` across a suspension point:
+        each request is served by its own instance"""
+
+        async def vm(self, tok):
+            self.tok = tok
+            CUR['exec'].append(tok)
+            if 'm0' in points[tok]:
+                await CUR['sched'].point(tok, 'm0')
+            return ['res', self.tok]
+
+    if any(PROFILES[p][0] == 'view' for p in shape):
+        disp.view(View)
     for i, p in enumerate(shape):
         kind, what, pts = PROFILES[p]
+        if kind == 'view':
+            continue
 
         def make(i=i, kind=kind, what=what, pts=pts):
             if kind == 'plain':
@@ -139,7 +155,7 @@ def build(shape, concurrent, plain_mw=False):
     reqs, want = [], []
     for i, p in enumerate(shape):
         kind, what, pts = PROFILES[p]
-        r = {'jsonrpc': '2.0', 'method': f'm{i}', 'params': [i]}
+        r = {'jsonrpc': '2.0', 'method': 'vm' if kind == 'view' else f'm{i}', 'params': [i]}
         if kind != 'notify':
             rid = [0, 'id1', -3, 4, '', 6][i]
             r['id'] = rid
@@ -194,6 +210,8 @@ def run_shape(ctx, shape, concurrent, plain_mw=False):
         ctx.hit('profile:' + {'ok': 'ok', 'rpc': 'rpc-error', 'exc': 'exception', 'texc': 'exception'}[what])
         if kind == 'plain' and what == 'texc':
             ctx.hit('profile:plain-method-raising-TypeError')
+        if kind == 'view':
+            ctx.hit('profile:view-method')
     shape_desc = [list(PROFILES[p]) for p in shape]
     limit = 60000
     with warnings.catch_warnings(record=True) as caught:
@@ -292,7 +310,7 @@ def gen(ctx):
     four = [list(s) for s in itertools.product(P, repeat=4)]
     if full:
         shapes += three + rng.sample(four, 2500)
-        light = [0, 1, 5, 6, 8, 9, 10, 11]      # profiles with <= 1 suspension point
+        light = [0, 1, 5, 6, 8, 9, 10, 11, 12]      # profiles with <= 1 suspension point
         shapes += [[rng.choice(light) for _ in range(5)] for _ in range(150)]
     else:
         shapes += three
